@@ -25,8 +25,10 @@ namespace Scico.Cache
 /-! ## 1. one-slot operator cache (TVNorm) -/
 
 /-- One cached-operator slot.  `ι` = what the operator is built from (input shape and dtype of the
-    array at hand), `κ` = what the code compares, read back from the cached operator by `opKey`
-    (`op.shape[1]`, `op.input_dtype`).  Returns the new slot and the operator that is *used*. -/
+    array at hand AND the configuration `circular`, `axes` in force), `κ` = what the code compares, read
+    back from the cached operator by `opKey` (`op.shape[1]`, `op.input_dtype`, and — since 06ebce8 — the
+    `(circular, axes)` recorded in `_G_key` / `_WP_key` when it was built).  Returns the new slot and the
+    operator that is *used*. -/
 def query {ι κ ω : Type} [DecidableEq κ] (opKey : ω → κ) (keyOf : ι → κ) (build : ι → ω)
     (slot : Option ω) (i : ι) : Option ω × ω :=
   match slot with
@@ -481,8 +483,10 @@ def codeOptionTables : List (String × String × String × List (String × Strin
     `Functional.__init__/grad`; `World.construct` ↔ the two `internal_init`; `rngCall` ↔ `_add_seed.fun_alt`; `LinOpState.jit/needAdj/
     needGram` ↔ `LinearOperator.jit/_set_adjoint/_set_gram`. -/
 def codeSources : List (String × List String) := [
-  ("TVNorm.__call__", ["if self.G is None or self.G.shape[1] != x.shape or self.G.input_dtype != x.dtype:", "    with jax.ensure_compile_time_eval():", "        self.G = self._call_operator(x.shape, x.dtype)", "return self.norm(self.G @ x)"]),
-  ("TVNorm.prox", ["if self.WP is None or self.WP.shape[1] != v.shape or self.WP.input_dtype != v.dtype:", "    with jax.ensure_compile_time_eval():", "        self.WP, self.CWT, self.prox_ndims, self.prox_slice = self._prox_operators(v.shape, v.dtype)", "assert self.prox_ndims is not None", "assert self.prox_slice is not None", "K = 2 * self.prox_ndims", "u = TVNorm._prox_core(self.WP, self.CWT, self.norm, K, TVNorm._slice_tuple_to_tuple(self.prox_slice), v, lam)", "return u"]),
+  ("TVNorm.__call__", ["if self.G is None or self.G.shape[1] != x.shape or self.G.input_dtype != x.dtype or (getattr(self, '_G_key', None) != (self.circular, self.axes)):", "    with jax.ensure_compile_time_eval():", "        self.G = self._call_operator(x.shape, x.dtype)", "return self.norm(self.G @ x)"]),
+  ("TVNorm.prox", ["if self.WP is None or self.WP.shape[1] != v.shape or self.WP.input_dtype != v.dtype or (getattr(self, '_WP_key', None) != (self.circular, self.axes)):", "    with jax.ensure_compile_time_eval():", "        self.WP, self.CWT, self.prox_ndims, self.prox_slice = self._prox_operators(v.shape, v.dtype)", "assert self.prox_ndims is not None", "assert self.prox_slice is not None", "K = 2 * self.prox_ndims", "u = TVNorm._prox_core(self.WP, self.CWT, self.norm, K, TVNorm._slice_tuple_to_tuple(self.prox_slice), v, lam)", "return u"]),
+  ("TVNorm._call_operator", ["self._G_key = (self.circular, self.axes)", "G = FiniteDifference(input_shape, input_dtype=input_dtype, axes=self.axes, circular=self.circular, append=None if self.circular else 0, jit=True)", "return G"]),
+  ("TVNorm._prox_operators", ["self._WP_key = (self.circular, self.axes)", "axes = normalize_axes(self.axes, input_shape)", "ndims = len(axes)", "w_input_shape = input_shape if self.circular else tuple([s + 1 if i in axes else s for i, s in enumerate(input_shape)])", "W = HaarTransform(w_input_shape, input_dtype=input_dtype, axes=axes, jit=True)", "if self.circular:", "    slce = snp.s_[:, 1]", "    WP, CWT = (W, W.T)", "else:", "    slce = (snp.s_[:], snp.s_[1]) + tuple([snp.s_[:-1] if i in axes else snp.s_[:] for i, s in enumerate(input_shape)])", "    pad_width = [(0, 1) if i in axes else (0, 0) for i, s in enumerate(input_shape)]", "    P = Pad(input_shape, input_dtype=input_dtype, pad_width=pad_width, mode='edge', jit=True)", "    WP = W @ P", "    C = Crop(crop_width=pad_width, input_shape=w_input_shape, input_dtype=input_dtype, jit=True)", "    CWT = C @ W.T", "return (WP, CWT, ndims, slce)"]),
   ("Loss.__mul__", ["new_loss = copy(self)", "new_loss._grad = scico.grad(new_loss.__call__)", "new_loss.set_scale(self.scale * other)", "return new_loss"]),
   ("Loss.__truediv__", ["new_loss = copy(self)", "new_loss._grad = scico.grad(new_loss.__call__)", "new_loss.set_scale(self.scale / other)", "return new_loss"]),
   ("Loss.set_scale", ["self.scale = new_scale"]),
